@@ -375,26 +375,44 @@ def find_children_for_parent(var_collector: Collector, parent_node: ParentNode, 
     :return: list of child nodes
     """
     if is_dict_like(variable_type):
-        return process_dict_breadth_first(parent_node, variable_type.__name__, value) \
-            + process_own_attributes(parent_node, variable_type, value)
+        nodes = process_dict_breadth_first(parent_node, variable_type.__name__, value)
+        if variable_type is builtin_base(variable_type):
+            return nodes
     elif is_list_like(variable_type):
-        return process_list_breadth_first(var_collector, parent_node, builtin_base(variable_type).__iter__(value)) \
-            + process_own_attributes(parent_node, variable_type, value)
+        nodes = process_list_breadth_first(var_collector, parent_node, builtin_base(variable_type).__iter__(value))
+        if variable_type is builtin_base(variable_type):
+            return nodes
     elif isinstance(value, Exception):
         # what it was raised with, and the attributes an application exception carries (a code, the offending record)
         nodes = process_list_breadth_first(var_collector, parent_node, value.args)
-        attributes = getattr(value, '__dict__', None)
-        if isinstance(attributes, dict):
-            nodes += process_dict_breadth_first(parent_node, variable_type.__name__, attributes, correct_names)
-        return nodes
-    attributes = getattr(value, '__dict__', None)
-    nodes = process_slots_breadth_first(parent_node, variable_type, value)
-    if isinstance(attributes, dict):
-        return nodes + process_dict_breadth_first(parent_node, variable_type.__name__, attributes, correct_names)
+    else:
+        nodes = []
+    # the attributes the object carries itself: in an attribute dictionary, in slots, or both
+    attributes = attribute_dict(value)
+    nodes += process_slots_breadth_first(parent_node, variable_type, value)
+    if attributes is not None and attributes is not value:
+        nodes += process_dict_breadth_first(parent_node, variable_type.__name__, attributes, correct_names)
     if not nodes:
         # values without attributes of their own (builtin types) have no children to collect
         logging.debug("Unknown type processed %s", variable_type)
     return nodes
+
+
+def attribute_dict(value):
+    """
+    Get the attribute dictionary of an object (None if it has none).
+
+    It is read the way object itself reads it: a __getattribute__ / __getattr__ of the application is not run
+    (looking at a value must not run application code, and such a method can answer '__dict__' with anything).
+
+    :param value: the object
+    :return: the dictionary, or None
+    """
+    try:
+        attributes = object.__getattribute__(value, '__dict__')
+    except AttributeError:
+        return None
+    return attributes if isinstance(attributes, dict) else None
 
 
 def process_dict_breadth_first(parent_node, type_name, value, func=lambda x, y: y) -> List[Node]:
@@ -417,23 +435,6 @@ def process_dict_breadth_first(parent_node, type_name, value, func=lambda x, y: 
     return [Node(value=NodeValue(func(type_name, safe_str(key)), dict.__getitem__(value, key), safe_str(key)),
                  parent=parent_node)
             for key in list(builtin_base(type(value)).keys(value)) if dict.__contains__(value, key)]
-
-
-def process_own_attributes(parent_node, variable_type: type, value) -> List[Node]:
-    """
-    Process the attributes an application class derived from a builtin container carries next to its elements.
-
-    :param (ParentNode) parent_node: the node that represents the container, the parent for the returned nodes
-    :param (type) variable_type: the type of the container
-    :param (any) value: the container
-    :return (list): the collected child nodes (none for the builtin containers themselves)
-    """
-    if variable_type is builtin_base(variable_type):
-        return []
-    attributes = getattr(value, '__dict__', None)
-    if not isinstance(attributes, dict):
-        return []
-    return process_dict_breadth_first(parent_node, variable_type.__name__, attributes, correct_names)
 
 
 def process_slots_breadth_first(parent_node, variable_type: type, value) -> List[Node]:
